@@ -329,7 +329,7 @@ var propStreams = map[string][]string{
 	"C10": {"SHARE", "COMPACT", "SPARSE"},
 	"C11": {"COMPACT"},
 	"C12": {"BUILDER", "COMPACT", "CHIST", "BHIST"},
-	"C13": {"COUNTER", "ARITHLEN", "SPARSE", "BUILDER"},
+	"C13": {"COUNTER", "ARITHLEN", "SPARSE", "BUILDER", "BHIST"},
 	"C14": {"BHIST", "CHIST"},
 	"C15": {"ARITH"},
 	"C16": {"MALFORMED"},
@@ -354,7 +354,7 @@ var propOps = map[string][]string{
 	"C10": {"share ", "css export", "css write", "sss "},
 	"C11": {"css ", "sh parsetxs"},
 	"C12": {"sq txrange", "sq blobrange", "css ranges", "css write", "css export", "b txrange"},
-	"C13": {"cnt ", "arith ", "sq blobrange"},
+	"C13": {"cnt ", "arith ", "sq blobrange", "b bloblen"},
 	"C14": {"css ", "b "},
 	"C15": {"arith "},
 	"C16": {},
